@@ -105,6 +105,8 @@ def run(ctx):
         ctx.exhaustive = False
     runs += extra         # seeded random data sets beyond the enumerated scope
     traces = core.pmap(cc.record, runs, chunk=100)
+    ctx.notes["runs_refused_for_their_element_type"] = sum(1 for tr in traces if tr.get("rejected_input"))
+    traces = [tr for tr in traces if not tr.get("rejected_input")]
     coarse = 0
     for tr in traces:
         pr = [e for e in tr["events"] if e["ev"] == "prop"]
